@@ -19,7 +19,7 @@ func init() {
 			"(b) its success exits are the wildcard membership or a true subset test; identity parse error, missing separator, empty value, leaf-subject parse error and 'no x509 identity' are fail-closed (a gate may sit in a module helper: the helper's success edge then is the gate); " +
 			"(c) argument order at every subset test in the verifier's call tree: first a parsed x509.subject identity (every value that can reach the list is ParseDN(value part of an identity of the identities parameter), parsed under the fact that its kind is x509.subject), second the parsed subject of certs[0]; " +
 			"(d) the subset function (by type func(map,map) bool) ranges over its first argument, calls nothing, and every completed iteration passes a comma-ok lookup in the second map and value equality; true is returned only after the loop; " +
-			"(e) the DN parser: '=#' and parse errors fail, multi-valued RDN fails, S is aliased to ST, duplicates fail, each of C, ST, O must be present.",
+			"(e) the DN parser, over its call tree (a loop, gate or store may sit in a module helper whose failure fails the parse): '=#' and parse errors fail, every RDN and attribute is read, multi-valued RDN fails, S is aliased to ST, duplicates fail, and on every success exit each of C, ST, O is known to have a value in the one fresh result map (by a loop over a list of constants wherever it is declared, by single tests, or by a helper).",
 		NotCov:  "RFC 4514 parsing itself (go-ldap ParseDN); that the native check is skipped only under the plugin capability is rule C02/routing/identity.",
 		Trusted: []string{"go/types, go/ssa", "go-ldap ParseDN", "crypto/x509/pkix.Name.String"},
 	})
@@ -49,7 +49,7 @@ func runC04(c *Ctx) {
 				S = fn
 			}
 		}
-		if sig.Params().Len() == 1 && sig.Results().Len() == 2 && isMapSS(sig.Results().At(0).Type()) && isErrorType(sig.Results().At(1).Type()) {
+		if c04ParserShape(fn) && !c04InnerParser(w, fn) {
 			P = fn
 		}
 	}
@@ -190,7 +190,11 @@ func c04Subset(c *Ctx, S *ssa.Function) {
 
 func c04Parser(c *Ctx, P *ssa.Function) {
 	w := c.W
-	fi := w.Info(P)
+	// a function of the same shape that only serves another parser of the package (a worker the exported parser calls) is
+	// judged as part of that parser's call tree, not on its own
+	if c04InnerParser(w, P) {
+		return
+	}
 	c.SeenFn(P.String())
 	s := w.Summarize(P, Mode{Kind: mErr})
 	c.Evals += s.States
@@ -199,146 +203,203 @@ func c04Parser(c *Ctx, P *ssa.Function) {
 		{Name: "no-hex-value", What: "the name does not contain \"=#\"", Subs: []string{"F(call:strings.Contains(" + pn + `,const:"=#"))`}},
 		{Name: "parse-error", What: "ldap.ParseDN err == nil", Subs: []string{"EQ(call:ldap.ParseDN(" + pn + ")#err,nil)"}},
 	})
-	// the result map is fresh
+	// The rules below are decided over the call tree of the parser: a loop, a gate or the store may sit in a module helper
+	// the parser calls. Every fact is rendered in the parser's own frame (the helper's parameters replaced by the arguments
+	// of the call chain), and a helper's failure counts only if every caller on the chain turns it into its own failure
+	// (c04LinkFrames) — then "an iteration of the helper's loop cannot complete / the helper cannot succeed without the
+	// gate" is "the parse cannot succeed without the gate", which is what the inline form states.
+	frames := c04Frames(w, P, nil)
+	links := c04LinkFrames(w, frames)
+	root := frames[0]
+	// the result map is fresh: every success exit returns the one map made in the parser or in the helper whose result it
+	// hands on. M0: that map; MP: the value it is in the parser's own body.
 	okFresh := len(s.Exits) > 0
-	for _, ex := range s.Exits {
-		if _, ok := ex.Ret.Results[0].(*ssa.MakeMap); !ok {
+	var M0 *ssa.MakeMap
+	var MP ssa.Value
+	for i, ex := range s.Exits {
+		mm := c04ResultMap(w, frames, root, ex.Ret.Results[0], 0)
+		if mm == nil {
 			okFresh = false
+		}
+		if i == 0 {
+			M0, MP = mm, ex.Ret.Results[0]
+		} else if M0 != mm || MP != ex.Ret.Results[0] {
+			M0, MP = nil, nil
 		}
 	}
 	c.Check(okFresh, "parser/result-is-fresh-map", "the parse result is a map made in the parser (order and spacing of the input cannot reach the comparison)", w.FnPos(P), "result is not a fresh map")
-	// loops over RDNs and attributes; the loop over the list of mandatory attribute types is the one that ranges over a
-	// local literal (`[]string{...}` held in a variable or not, or an array literal)
-	var rdnLoop, attrLoop, mandLoop *sliceLoop
-	for _, sl := range sliceLoops(P) {
-		sl := sl
-		d := desc(sl.X)
-		switch {
-		case strings.HasSuffix(d, ".RDNs"):
-			rdnLoop = &sl
-		case strings.HasSuffix(d, ".Attributes"):
-			attrLoop = &sl
-		case c04LitAlloc(sl.X) != nil:
-			mandLoop = &sl
+	// loops over RDNs and attributes, by what they range over: the RDNs of the parsed name, and the attributes of the RDN
+	// of the current iteration
+	var rdnLoops, attrLoops []*c04LoopAt
+	for _, f := range frames {
+		for _, sl := range sliceLoops(f.fn) {
+			sl := sl
+			d := f.up(desc(sl.X))
+			if strings.HasPrefix(d, "call:ldap.ParseDN("+pn+")") && strings.HasSuffix(d, ".RDNs") {
+				rdnLoops = append(rdnLoops, &c04LoopAt{f: f, l: &sl, x: d, idx: c04LoopIndex(&sl)})
+			}
 		}
 	}
-	if rdnLoop == nil || attrLoop == nil {
-		c.Unk("parser/loops", "anchor: loops over RDNs and their attributes", w.FnPos(P), "not recognised")
+	if len(rdnLoops) == 1 {
+		rl := rdnLoops[0]
+		for _, f := range frames {
+			if !f.under(rl.f) {
+				continue
+			}
+			for _, sl := range sliceLoops(f.fn) {
+				sl := sl
+				if d := f.up(desc(sl.X)); d == rl.x+"["+rl.idx+"].Attributes" {
+					attrLoops = append(attrLoops, &c04LoopAt{f: f, l: &sl, x: d, idx: c04LoopIndex(&sl)})
+				}
+			}
+		}
+	}
+	if len(rdnLoops) != 1 || len(attrLoops) != 1 {
+		c.Unk("parser/loops", "anchor: loops over RDNs and their attributes", w.FnPos(P), fmt.Sprintf("not recognised (%d loops over the RDNs of the parsed name, %d over the attributes of the current RDN)", len(rdnLoops), len(attrLoops)))
 		return
+	}
+	rdnLoop, attrLoop := rdnLoops[0], attrLoops[0]
+	for _, la := range []*c04LoopAt{rdnLoop, attrLoop} {
+		c.SeenFn(la.f.fn.String())
+	}
+	rfi, afi := w.Info(rdnLoop.f.fn), w.Info(attrLoop.f.fn)
+	linked := func(f *c04Frame) (bool, string) {
+		if l := links[f]; l != nil && l.linked {
+			return true, ""
+		}
+		return false, "a failure of " + fnName(f.fn) + " does not fail the parse on every path; "
 	}
 	// every RDN and every attribute is read: a parse that succeeds left both loops by exhaustion (an attribute of the
 	// identity that is never read is an attribute the subject is never asked for)
 	{
-		wit := c04LeavesEarly(fi, rdnLoop)
-		if wit == nil {
-			wit = c04LeavesEarly(fi, attrLoop)
+		var wit []string
+		why := ""
+		for _, la := range []*c04LoopAt{rdnLoop, attrLoop} {
+			ok, y := linked(la.f)
+			if !strings.Contains(why, y) {
+				why += y
+			}
+			if ok && wit == nil {
+				wit = c04LeavesEarlyMode(w.Info(la.f.fn), la.l, links[la.f].succ)
+			}
 		}
 		c.Evals += 2
-		c.Check(wit == nil, "parser/every-attribute-read", "a successful parse has iterated over all RDNs and all their attributes", w.InstrPos(blockTerm(rdnLoop.Header)), "the parse can succeed after leaving a loop before its end", wit...)
+		if wit != nil {
+			why += "the parse can succeed after leaving a loop before its end"
+		}
+		c.Check(wit == nil && why == "", "parser/every-attribute-read", "a successful parse has iterated over all RDNs and all their attributes", w.InstrPos(blockTerm(rdnLoop.l.Header)), why, wit...)
 	}
-	// multi-valued RDN: entering the attribute loop requires len(Attributes) <= 1
+	// multi-valued RDN: an iteration over an RDN completes only under len(Attributes) <= 1 — a multi-valued RDN never lets
+	// the loop go on, so the parse fails on it (the test may precede the attribute loop or sit in the helper that runs it)
 	{
-		labels, ok := fi.mustPassBetween([]int{rdnLoop.Body.Index}, map[int]bool{attrLoop.Header.Index: true})
-		_, h := hasLabel(labels, "LE(len(", ".Attributes),const:1)")
-		if !h {
-			_, h = hasLabel(labels, "LT(len(", ".Attributes),const:2)")
+		sel := func(l string) bool {
+			return l == "LE(len("+attrLoop.x+"),const:1)" || l == "LT(len("+attrLoop.x+"),const:2)"
 		}
+		ok, why := linked(rdnLoop.f)
+		done := rfi.reachHit([]state{{rdnLoop.l.Body.Index, 0, -1}}, c04Cut(w, rdnLoop.f, sel), map[int]bool{rdnLoop.l.Header.Index: true})
+		labels, _ := rfi.mustPassBetween([]int{rdnLoop.l.Body.Index}, map[int]bool{rdnLoop.l.Header.Index: true})
 		c.Evals++
-		c.Check(ok && h, "parser/multi-valued-rdn", "per-RDN gate: attributes are read only from single-valued RDNs (multi-valued RDN fails)", w.InstrPos(blockTerm(rdnLoop.Header)), "facts: "+summarizeLabels(labels, 6))
+		c.Check(ok && !done, "parser/multi-valued-rdn", "per-RDN gate: attributes are read only from single-valued RDNs (multi-valued RDN fails)", w.InstrPos(blockTerm(rdnLoop.l.Header)), why+"facts of a completed iteration: "+summarizeLabels(labels, 6))
 	}
-	// the map update: guarded by 'no value yet'; duplicates fail
-	var mu *ssa.MapUpdate
-	for _, b := range P.Blocks {
-		for _, in := range b.Instrs {
-			if x, ok := in.(*ssa.MapUpdate); ok {
-				mu = x
-			}
-		}
-	}
-	if mu == nil {
-		c.Bad("parser/duplicate", "per-attribute gate: an attribute is stored only if no value was stored for its type before; otherwise the parse fails", w.FnPos(P), "no map store found")
-		c.Bad("parser/alias-S-ST", "the attribute type S is rewritten to ST before it is stored", w.FnPos(P), "no map store found")
-	} else {
-		labels, ok := fi.mustPassBetween([]int{attrLoop.Body.Index}, map[int]bool{attrLoop.Header.Index: true})
-		_, h := hasLabel(labels, "EQ(makemap:map[string]string[", `,const:"")`)
-		if !h {
-			_, h = hasLabel(labels, "F(ok(makemap:map[string]string[")
-		}
-		g := fi.GuardsOf(mu)
-		_, h2 := hasLabel(g, "EQ(makemap:map[string]string[", `,const:"")`)
-		if !h2 {
-			_, h2 = hasLabel(g, "F(ok(makemap:map[string]string[")
-		}
-		c.Evals += 2
-		c.Check(ok && h && h2, "parser/duplicate", "per-attribute gate: an attribute is stored only if no value was stored for its type before; otherwise the parse fails", w.InstrPos(mu),
-			"a duplicate attribute does not fail the parse; per-iteration facts: "+summarizeLabels(labels, 6))
-		// value stored is the attribute's Value, key its Type (of the same attribute of this iteration), the key possibly
-		// after the S -> ST aliasing
-		keyT, aliasOK, aliasWhy := c04AliasedKey(fi, attrLoop, mu)
-		attr := strings.TrimSuffix(desc(mu.Value), ".Value")
-		idx := "?"
-		if iff, ok := blockTerm(attrLoop.Header).(*ssa.If); ok {
-			if bo, ok := iff.Cond.(*ssa.BinOp); ok {
-				idx = descIndex(bo.X)
-			}
-		}
-		c.Check(strings.HasSuffix(desc(mu.Value), ".Value") && strings.HasSuffix(attr, ".Attributes["+idx+"]") && keyT != nil && desc(keyT) == attr+".Type",
-			"parser/stores-type-value", "the map entry is attribute.Type -> attribute.Value", w.InstrPos(mu), desc(mu.Key)+" -> "+desc(mu.Value))
-		c.Evals++
-		c.Check(aliasOK, "parser/alias-S-ST", "the attribute type S is rewritten to ST before it is stored", w.InstrPos(mu), aliasWhy)
-	}
-	// mandatory fields
-	if mandLoop == nil {
-		c.Bad("parser/mandatory", "each of C, ST, O must have a non-empty value", w.FnPos(P), "no loop over the mandatory attribute list")
-	} else {
-		// the gate of an iteration: the result map holds a non-empty value under the element of the list
-		lit := c04LitAlloc(mandLoop.X)
-		el := desc(mandLoop.X) + "["
-		labels, ok := fi.mustPassBetween([]int{mandLoop.Body.Index}, map[int]bool{mandLoop.Header.Index: true})
-		_, h := hasLabel(labels, "NE(makemap:map[string]string["+el, `,const:"")`)
-		if !h {
-			_, h = hasLabel(labels, "T(ok(makemap:map[string]string["+el)
-		}
-		// the list contains C, ST, O: the elements of that literal, all constants, nothing else written into it
-		have := map[string]bool{}
-		if els := orderedLitElems(lit); els != nil && c04LitConstOnly(lit) {
-			for _, e := range els {
-				if k, isK := e.(*ssa.Const); isK {
-					have[constString(k)] = true
+	// the stores into the result map, wherever they sit below the attribute loop
+	var stores []*c04StoreAt
+	for _, f := range frames {
+		for _, b := range f.fn.Blocks {
+			for _, in := range b.Instrs {
+				if x, ok := in.(*ssa.MapUpdate); ok && M0 != nil && c04MapOrigin(f, x.Map) == ssa.Value(M0) {
+					stores = append(stores, &c04StoreAt{f: f, mu: x})
 				}
 			}
 		}
-		// success exits pass through the mandatory loop, and leave it only when the list is exhausted (not by a break
-		// that skips the rest of the list)
-		cut := map[edgeKey]bool{}
-		cutInto(fi, mandLoop.Header, cut)
-		wit := fi.successWitness(Mode{Kind: mErr}, entryState(), cut)
-		if wit == nil {
-			wit = c04LeavesEarly(fi, mandLoop)
+	}
+	elem := attrLoop.x + "[" + attrLoop.idx + "]"
+	if len(stores) == 0 {
+		c.Bad("parser/duplicate", "per-attribute gate: an attribute is stored only if no value was stored for its type before; otherwise the parse fails", w.FnPos(P), "no store into the result map found")
+		c.Bad("parser/alias-S-ST", "the attribute type S is rewritten to ST before it is stored", w.FnPos(P), "no store into the result map found")
+	} else {
+		// duplicates: an iteration over an attribute completes only under "no value yet under the key that is stored", and
+		// each store stands under that fact
+		empty := func(st *c04StoreAt) func(string) bool {
+			e := st.f.up(desc(st.mu.Map) + "[" + desc(st.mu.Key) + "]")
+			return func(l string) bool { return l == "EQ("+e+`,const:"")` || l == "F(ok("+e+"))" }
 		}
-		c.Evals += 2
-		c.Check(ok && h && have[`"C"`] && have[`"ST"`] && have[`"O"`] && wit == nil, "parser/mandatory", "each of C, ST, O must have a non-empty value on every success path", w.InstrPos(blockTerm(mandLoop.Header)),
-			fmt.Sprintf("list=%v gate=%v bypass=%v", sortedKeys(have), h, wit != nil), wit...)
+		anyEmpty := func(l string) bool {
+			for _, st := range stores {
+				if empty(st)(l) {
+					return true
+				}
+			}
+			return false
+		}
+		ok, why := linked(attrLoop.f)
+		done := afi.reachHit([]state{{attrLoop.l.Body.Index, 0, -1}}, c04Cut(w, attrLoop.f, anyEmpty), map[int]bool{attrLoop.l.Header.Index: true})
+		labels, _ := afi.mustPassBetween([]int{attrLoop.l.Body.Index}, map[int]bool{attrLoop.l.Header.Index: true})
+		for _, st := range stores {
+			c.SeenFn(st.f.fn.String())
+			site := w.InstrPos(st.mu)
+			guarded := false
+			for l := range st.f.guardsUp(w, st.mu) {
+				if c04Selected(l, empty(st)) {
+					guarded = true
+				}
+			}
+			inLoop := st.f.under(attrLoop.f) && (st.f != attrLoop.f || loopBlocks(attrLoop.l.Header)[st.mu.Block().Index])
+			c.Evals += 2
+			c.Check(ok && !done && guarded && inLoop, "parser/duplicate", "per-attribute gate: an attribute is stored only if no value was stored for its type before; otherwise the parse fails", site,
+				fmt.Sprintf("%sa duplicate attribute does not fail the parse (iteration gated=%v store guarded=%v store inside the attribute loop=%v); per-iteration facts: %s", why, !done, guarded, inLoop, summarizeLabels(labels, 6)))
+			// value stored is the attribute's Value, key its Type (of the attribute of this iteration), the key possibly after
+			// the S -> ST aliasing
+			keyT, aliasOK, aliasWhy := c04AliasedKey(w, st, attrLoop)
+			c.Check(st.f.up(desc(st.mu.Value)) == elem+".Value" && keyT != "" && st.f.up(keyT) == elem+".Type",
+				"parser/stores-type-value", "the map entry is attribute.Type -> attribute.Value", site, st.f.up(desc(st.mu.Key))+" -> "+st.f.up(desc(st.mu.Value)))
+			c.Evals++
+			c.Check(aliasOK, "parser/alias-S-ST", "the attribute type S is rewritten to ST before it is stored", site, aliasWhy)
+		}
+	}
+	// mandatory fields: at every success exit each of C, ST, O is known to have a value in the result map. Decided on the
+	// paths of the parser and of the helpers the map is handed to (c04MandCovered): by a loop over a list of constants,
+	// wherever that list is written down, by tests of the single types, or by a helper that does either.
+	{
+		var notes []string
+		have := map[string]bool{}
+		if MP == nil || M0 == nil {
+			notes = append(notes, "the success exits do not return one map made in the parser")
+		} else {
+			have = c04MandCovered(w, root, MP, c04Succ{mode: Mode{Kind: mErr}}, &notes)
+		}
+		c.Evals += 3
+		site := w.FnPos(P)
+		if len(s.Exits) > 0 {
+			site = w.InstrPos(s.Exits[0].Ret)
+		}
+		c.Check(have["C"] && have["ST"] && have["O"], "parser/mandatory", "each of C, ST, O must have a non-empty value on every success path", site,
+			fmt.Sprintf("types known to have a value on every success path: %v; %s", sortedKeys(have), strings.Join(notes, "; ")))
 	}
 }
 
-// c04AliasedKey decides the key of the attribute store: which value T it is when it is not the alias, and whether
-// "key = ST if T is S, else T" holds. Two forms:
+// c04AliasedKey decides the key of an attribute store: the value T it is when it is not the alias (rendered in the frame of
+// the store), and whether "key = ST if T is S, else T" holds. Forms:
 //
 //	in place:  `if a.Type == "S" { a.Type = "ST" }; m[a.Type] = ...` — the key is a load of the attribute's Type field; every
 //	           path of the iteration to the store passes Type != "S" or the block that stores "ST" into that field
 //	           (guarded by Type == "S");
 //	local:     `t := a.Type; if t == "S" { t = "ST" }; m[t] = ...` — the key is a phi whose "ST" edges are dominated by
-//	           T == "S" and whose T edges by T != "S" (same decision, the ldap attribute is left alone).
+//	           T == "S" and whose T edges by T != "S" (same decision, the ldap attribute is left alone);
+//	helper:    `m[canonical(a.Type)] = ...` — the key is the result of a module function every return of which is "ST"
+//	           under parameter == "S", or the parameter under parameter != "S" (either as two returns or as the local form
+//	           inside the helper); T is the argument.
 //
-// In both the map key is "ST" exactly when the attribute type is "S" and the attribute type otherwise, which is the
+// In all of them the map key is "ST" exactly when the attribute type is "S" and the attribute type otherwise, which is the
 // clause (S is an alias of ST); T itself is checked against the attribute by the caller.
-func c04AliasedKey(fi *FnInfo, attrLoop *sliceLoop, mu *ssa.MapUpdate) (ssa.Value, bool, string) {
+func c04AliasedKey(w *World, st *c04StoreAt, attrLoop *c04LoopAt) (string, bool, string) {
+	fi := w.Info(st.f.fn)
+	mu := st.mu
 	isST := func(v ssa.Value) bool {
 		k, ok := v.(*ssa.Const)
 		return ok && constString(k) == `"ST"`
 	}
-	if phi, ok := mu.Key.(*ssa.Phi); ok {
+	// phiAlias: the phi is "ST" under T == "S" and T under T != "S"
+	phiAlias := func(phi *ssa.Phi) (ssa.Value, bool, string) {
 		var T ssa.Value
 		for _, e := range phi.Edges {
 			if !isST(e) {
@@ -365,30 +426,100 @@ func c04AliasedKey(fi *FnInfo, attrLoop *sliceLoop, mu *ssa.MapUpdate) (ssa.Valu
 		}
 		return T, nST > 0, "no edge sets the key to \"ST\""
 	}
+	switch key := mu.Key.(type) {
+	case *ssa.Phi:
+		T, ok, why := phiAlias(key)
+		if T == nil {
+			return "", ok, why
+		}
+		return desc(T), ok, why
+	case *ssa.Call:
+		g := staticCallee(key)
+		if g == nil || g.Blocks == nil || !w.IsProductFn(g) || g.Parent() != nil || len(g.Params) != len(key.Call.Args) || g.Signature.Results().Len() != 1 {
+			return "", false, "the key is the result of a call that is not a static module call"
+		}
+		gi := w.Info(g)
+		var p *ssa.Parameter
+		nST := 0
+		for _, b := range g.Blocks {
+			r, isRet := blockTerm(b).(*ssa.Return)
+			if !isRet || len(r.Results) != 1 {
+				continue
+			}
+			guards := gi.GuardsOf(r)
+			var q ssa.Value
+			switch x := r.Results[0].(type) {
+			case *ssa.Phi:
+				T, ok, why := phiAlias(x)
+				if !ok {
+					return "", false, fnName(g) + ": " + why
+				}
+				q = T
+				nST++
+			case *ssa.Parameter:
+				if !labelHas(guards, "NE("+desc(x)+`,const:"S")`) {
+					return "", false, fnName(g) + " returns its argument on a path that is not under argument != \"S\" (S is stored as S)"
+				}
+				q = x
+			default:
+				if !isST(x) {
+					return "", false, fnName(g) + " returns something other than \"ST\" or its argument"
+				}
+				nST++
+				for _, gp := range g.Params {
+					if labelHas(guards, "EQ("+desc(gp)+`,const:"S")`) {
+						q = gp
+					}
+				}
+				if q == nil {
+					return "", false, fnName(g) + " returns \"ST\" on a path that is not under argument == \"S\""
+				}
+			}
+			qp, isP := q.(*ssa.Parameter)
+			if !isP || (p != nil && p != qp) {
+				return "", false, fnName(g) + " does not decide on one parameter"
+			}
+			p = qp
+		}
+		if p == nil || nST == 0 {
+			return "", false, fnName(g) + " never returns \"ST\""
+		}
+		for i, gp := range g.Params {
+			if gp == p {
+				return desc(key.Call.Args[i]), true, ""
+			}
+		}
+		return "", false, "parameter not found"
+	}
 	// in place
-	T := mu.Key
-	td := desc(T)
-	var stores []*ssa.Store
+	td := desc(mu.Key)
+	var sts []*ssa.Store
 	for _, b := range fi.Fn.Blocks {
 		for _, in := range b.Instrs {
-			if st, ok := in.(*ssa.Store); ok && isST(st.Val) && desc(st.Addr) == td {
-				if _, h := fi.GuardsOf(st)["EQ("+td+`,const:"S")`]; h {
-					stores = append(stores, st)
+			if x, ok := in.(*ssa.Store); ok && isST(x.Val) && desc(x.Addr) == td {
+				if _, h := fi.GuardsOf(x)["EQ("+td+`,const:"S")`]; h {
+					sts = append(sts, x)
 				}
 			}
 		}
 	}
-	if len(stores) == 0 {
-		return T, false, "no store of \"ST\" into the attribute type guarded by Type == \"S\""
+	if len(sts) == 0 {
+		return td, false, "no store of \"ST\" into the attribute type guarded by Type == \"S\""
 	}
 	cut := fi.edgesMatching(func(l string, _ *ssa.If, _ bool) bool { return l == "NE("+td+`,const:"S")` })
-	for _, st := range stores {
-		cutInto(fi, st.Block(), cut)
+	for _, x := range sts {
+		cutInto(fi, x.Block(), cut)
 	}
-	if mu.Block() != attrLoop.Body && fi.reachHit([]state{{attrLoop.Body.Index, 0, -1}}, cut, blocksOf(mu)) {
-		return T, false, "the attribute store is reachable with Type == \"S\" without the rewrite to \"ST\""
+	// from where the attribute of this iteration comes into being: the body of the attribute loop, or the entry of the helper
+	// that is handed the attribute
+	start := 0
+	if st.f == attrLoop.f {
+		start = attrLoop.l.Body.Index
 	}
-	return T, true, ""
+	if mu.Block().Index == start || fi.reachHit([]state{{start, 0, -1}}, cut, blocksOf(mu)) {
+		return td, false, "the attribute store is reachable with Type == \"S\" without the rewrite to \"ST\""
+	}
+	return td, true, ""
 }
 
 func c04Verifier(c *Ctx, V *ssa.Function, S, P *ssa.Function) {
